@@ -27,13 +27,20 @@ def warmup():
 
 
 def cases(tier, seed):
-    sp = tsspace.space(tier, renumber=("reverse",))
+    sp = tsspace.space(tier, renumber=("reverse", "rotate"))
     out = []
     for a in sp.args:
         E = tsspace.arg_ts(a).num_edges
         pats = tsspace.mutation_patterns(E, "Ms" if tier == "quick" else "Mp") + [("zero", [0] * E), ("twos", [2] * E)]
         for pn, pat in pats:
             out.append({"arg": a, "mut": pat})
+        # nodes with two different parents are where the rule is subtle (youngest parent, product over parents):
+        # complete {1,6}^E mutation product on the small multi-parent ARGs
+        ts = tsspace.arg_ts(a)
+        multi = any(len({e.parent for e in ts.edges() if e.child == u}) > 1 for u in range(a["n"], ts.num_nodes))
+        if multi and E <= (8 if tier == "quick" else 10) and "renumber" not in a:
+            for vec in itertools.product((1, 6), repeat=E):
+                out.append({"arg": a, "mut": list(vec)})
     return {
         "cases": out,
         "states": sp.states,
